@@ -198,6 +198,7 @@ var c07Core = []string{
 	"...@x", "...@y", "...@nope", "...@index", "a: @x", "a: @x.k", "a: @x.p.q", "a: @nope", "a: {...@x}", "a: [@x]", "a.class: @x", "...@d/x", "a: @../x", "...@\"x.d2\"", "a -> b: @x", "(a -> b)[0]: @x", "@x", "a.shape: @x", "...@x.k", "vars: {...@x}", "classes: @x", "layers: @x", "layers: {l: @x}", "layers: {l: {...@x}}",
 	"layers: {l: {x}}", "layers: {l: x}", "layers: x", "layers: [a]", "layers: null", "layers: {l: null}", "layers.l.x", "layers.l: {y}", "scenarios: {s: {a: y}}", "scenarios: {s: {a: null}}", "steps: {1: {z}}", "steps: {1: {z}; 2: {w}}", "layers: {l: {layers: {m: {q}}}}", "scenarios: {s: {steps: {1: {t}}}}", "layers: {l: {a.link: _}}", "a.link: layers.l", "a.link: _.layers.l", "a.link: root.layers.l", "layers: {a: {a}}", "layers: {\"..\": {x}}", "layers: {index: {x}}",
 	"classes: {k: {style.fill: red}}", "classes: {k: x}", "classes: x", "classes: [a]", "classes.k.shape: circle", "classes: {k: {class: k}}", "classes: {k: {classes: {j: {}}}}", "a.class: k", "a.class: [k; j]", "a.class: nope", "a.class: null", "a.class: {x}", "(a -> b)[0].class: k", "classes: null", "classes.k: null",
+	"\"_\"", "a: {\"_\"}", "'_' -> a", "a: {'_'.b -> \"_\"}",
 	"_", "_.x", "a: {_.y}", "a: {_._.y}", "a: {_ -> b}", "a: {b -> _.c}", "_ -> a", "a._", "a: {_: x}",
 	"style: x", "style.fill: red", "a.style: x", "a.style: {fill: red}", "a.style.fill", "a.style.nope: 1", "a.style.fill.x: 1", "label: x", "a.label.near: top-left", "a.icon.near: outside-top-left", "a.label: {near: bogus}", "shape: circle", "direction: right", "a.direction: up", "near: a", "a.near: b", "a.near: a", "a.near: top-left", "a.near: x.y", "a: {near: b.c}", "a.shape: sql_table", "a: {shape: sql_table; id: int {constraint: primary_key}}", "a: {shape: class; +f: int; -m(): void}", "a: {shape: sequence_diagram; x -> y; x.s -> y.t}", "a: {grid-rows: 2; b; c; d}", "a.shape: image", "a: {shape: image; icon: ./i.png}", "a.shape: text", "a: |md # h|", "a: |latex \\frac{1}{2}|", "a: |go x := 1|",
 	"a.width: 10", "a.height: -1", "a.top: 5", "a.left: x", "a.grid-rows: 0", "a.grid-gap: 1", "a.constraint: [a; b]", "a.tooltip: t", "a.link: https://x.y", "a.icon: https://x.y/i.png", "a.icon: i.png",
